@@ -147,6 +147,10 @@ pub mod prelude {
     pub fn m_into_wrap<T: Key>(v: T) -> Wrap { Wrap(v.key().wrapping_add(9000)) }
     pub fn m_into_none<T, U>(_v: T) -> Option<U> { None }
 
+    // aliases of primitive types: the same type under a name educe cannot recognise
+    pub type AliasI32 = i32;
+    pub type AliasF64 = f64;
+
     // Into target wrapper with From impls for the integer panel
     #[derive(Debug, Clone, Copy, PartialEq, Eq, PartialOrd, Ord, Hash, Default)]
     pub struct Wrap(pub i64);
